@@ -17,6 +17,7 @@ func init() {
 		Explanation: "Decided (structural necessary conditions): R1 every successful return of memfs.(*Filespace).Writer is reached only after the target file was freshly created or its content reset (a writer never appends to old content, and truncation does not wait for the first Write); R2 the constant flags of the os.OpenFile behind diskfs.(*Filespace).Writer contain a write mode, O_CREATE and O_TRUNC; R3 in fshelper.StreamCopy and Copier.copyFile the error of io.Copy and the error of closing the destination writer are both tested, their failing edges return them, success (or any value that may be nil) is returned only where both are known nil, the result is not overwritten by a deferred function, and reader and writer are closed on every path after they were opened; R4 fshelper.Copy runs the walk, waits, and returns its error list, and its callbacks return the errors of MkdirAll and StreamCopy; R5 the memory stream handle appends exactly the chunk it was given, reports its length, and keeps no reference to it (the encrypted stream writer likewise: C05.R9). " +
 			"Added in round 2: R3 also requires that the destination writer is opened only on the nil edge of the source reader's open (a failed copy does not create or empty the destination); R4 also requires that the per-file callback of fshelper.Copy returns a possibly-nil value only after StreamCopy ran (no 'looks up to date' skip); R6 the walkers of package fsloop look at an entry's name only to recognise '.' and '..' and leave their listing loop early only with a non-nil error (every entry of the source tree is visited); R7 the encrypting stream writer's Close seals, writes and closes the underlying stream and returns each error (same rule as C05.R8). " +
 			"Added in round 4: R3 also accepts the error-list idiom (errs = append(errs, wrapped); ...; return aggregate(errs)) where the aggregate can be nil only for an empty list and the list collects on every failing edge; R4/C06.R3/C20.R5 accept a wrapper error built on the failing edge in place of the error itself. " +
+			"Added in round 6: R8 the disk Writer/WriteFile hand the host exactly root + argument (same rule as C02.R7): a writer that goes through a fixed sibling name such as <path>.tmp destroys a real file of that name; io.CopyBuffer counts as io.Copy. " +
 			"NOT decided: byte equality for all contents, chunkings and buffer sizes; behaviour under injected I/O faults beyond the error-propagation shape.",
 	})
 }
